@@ -304,7 +304,8 @@ pub fn run(tier: &str, only: Option<&Value>) -> i32 {
                             bad = Some(("type_missing".to_string(), t));
                             break;
                         };
-                        let has_field = s.fields.iter().any(|f| f.name == "vftable");
+                        // the pointer field, whatever it is called: a field of the struct that points to a generated table
+                        let has_field = s.fields.iter().any(|f| f.ty.starts_with('*') && f.ty.ends_with("Vftable"));
                         if has_field != m.own_ptr(i) {
                             bad = Some(("vftable_field_presence".to_string(), format!("{t}: model says own pointer = {}, emitted field = {has_field}", m.own_ptr(i))));
                             break;
